@@ -431,6 +431,19 @@ pub fn check(a: &CheckArgs) -> i32 {
     let budget = a.budget(55);
     let max_runs = a.runs.unwrap_or(u64::MAX);
 
+    // ---- global wall-clock watchdog (covers the self-check phase as well): a run that never
+    // returns (e.g. an endless loop inside one poll) is a harness error, never a verdict
+    {
+        let limit = budget + Duration::from_secs(if thorough { 420 } else { 180 });
+        std::thread::spawn(move || loop {
+            std::thread::sleep(Duration::from_secs(1));
+            if t0.elapsed() > limit {
+                eprintln!("HARNESS-ERROR: check exceeded its wall-clock watchdog ({} s): a simulation run did not return", limit.as_secs());
+                std::process::exit(2);
+            }
+        });
+    }
+
     // ---- determinism self-check: N seeds x 2 in-process runs x 1 fresh process
     let det_n: u64 = if thorough { 48 } else { 16 };
     let local = selfcheck_hashes(property, a.seed, det_n);
